@@ -138,6 +138,10 @@ pub fn history(h: u8, players: &[Option<u8>; 4], v: (u8, u8)) -> Option<Vec<Fram
 	let items = [0u8, 1, 2, 3, 0, 2, 1, 0, 3, 1];
 	// before 2.2 a frame only exists through its first Pre event, so some character must be present
 	let droppable = !lone || v >= (2, 2);
+	if h == 6 {
+		// no frames at all: Game End (if any) follows Game Start directly -- what writing a skip-frames result gives
+		return Some(vec![]);
+	}
 	if h == 9 {
 		// long game: more than 2^16 frame rows (sizes and offsets that no longer fit 16 bits), everybody present, no items
 		return Some((0..LONG_ROWS).map(|r| FrameSpec { id: -123 + r as i32, present: chars.clone(), items: 0 }).collect());
@@ -278,7 +282,7 @@ pub fn candidates() -> Vec<Spec> {
 	let mut out = vec![];
 	for v in VERSIONS {
 		for players in PORTS {
-			for hist in 0..6u8 {
+			for hist in 0..7u8 {
 				let Some(frames) = history(hist, &players, v) else { continue };
 				for gecko in GECKOS {
 					if gecko.is_some() && v < (3, 3) {
